@@ -400,7 +400,9 @@ class ScopeGen(ScopeFn):
         res = set()
         for node in self.assignments:
             if node.name not in self.nonlocal_vars:
-                self.parent.access(node)
+                # To the enclosing scope this is an assignment, too: an
+                # enclosing comprehension has to leak it further.
+                self.parent.assign(node)
                 res.add(node.name)
         return sorted(res)
 
